@@ -10,7 +10,7 @@ answer   {"res":[r…]}
   r   = ["unit"] | ["desc",uid,name,pattern|null] | ["descs",[[uid,name,pattern]…]] | ["keys",[k…]]
       | ["mm",m] | ["mms",[m…]] | ["gen",uid] | ["gkeys",[[l,t]…]] | ["reg_error"] | ["type_error"]
   m   = ["given",uid] | ["made",serial,by,kw]
-{"op":"glob","pat":p,"file":f} → {"match":bool}   (the fnmatch model alone)
+{"op":"glob","pat":p,"file":f} → {"match":bool}   (the fnmatch model alone, classes included)
 -/
 open Lean Wire Reg
 
@@ -92,7 +92,7 @@ def handle (j : Json) : Json :=
     | _, _, _ => badOp
   | some "glob" =>
     match getStr? j "pat", getStr? j "file" with
-    | some p, some f => Json.mkObj [("match", toJson (globMatch p.toList f.toList))]
+    | some p, some f => Json.mkObj [("match", toJson (fnMatch p.toList f.toList))]
     | _, _ => badOp
   | _ => badOp
 
